@@ -54,6 +54,16 @@ Proof.
   - apply IH; [assumption|]. intros x Hx1 Hx2. apply (Hd x); [right; exact Hx1|exact Hx2].
 Qed.
 
+Lemma NoDup_app_r {A} (l1 l2 : list A) : NoDup (l1 ++ l2) -> NoDup l2.
+Proof. induction l1 as [|a l1 IH]; simpl; intros H; [exact H|]. inversion H; subst. apply IH. assumption. Qed.
+
+Lemma NoDup_app_l {A} (l1 l2 : list A) : NoDup (l1 ++ l2) -> NoDup l1.
+Proof.
+  induction l1 as [|a l1 IH]; simpl; intros H; [constructor|]. inversion H; subst. constructor.
+  - intros Hin. apply H2. apply in_or_app. left. exact Hin.
+  - apply IH. assumption.
+Qed.
+
 (** measure of a DFS: how many nodes of [U] are not yet marked *)
 Definition unmarked (U marked : list nat) : nat :=
   length (filter (fun x => negb (mem x marked)) U).
